@@ -99,6 +99,16 @@ def run(chk, tier, seed, replay=None):
     cases += corecheck.gen_cases(rng, graphs, n2, prof_b, 'b')
     for c in cases:
         vary_exceptions(rng, c['world'])
+        # tests that stand in for sys.stdout / patch the clock from setUp to their
+        # cleanups and then fail: the failure is reported while the stand-in is in place
+        # (a bare mock as the clock cannot be formatted as a duration at -vvv: not used there)
+        for t in c['world']['tests'].values():
+            if t.get('kind') in ('fail', 'error', 'subfail', 'two_events') and rng.random() < 0.12:
+                if c['o'].get('buffer') or c['o'].get('verbose', 0) >= 3 or rng.random() < 0.5:
+                    if not c['o'].get('buffer'):
+                        t['setUp'] = [{'a': 'standin_stdout'}] + list(t.get('setUp', ()))
+                else:
+                    t['setUp'] = [{'a': 'mock_time'}] + list(t.get('setUp', ()))
     for c in cases[:3]:
         chk.sample({'world': c['world'], 'options': c['o'], 'mode': c['mode']})
     corecheck.run_cases(chk, FAM, cases)
